@@ -3,7 +3,7 @@
    statement). *)
 From Coq Require Import ZArith QArith List.
 From ADC Require Import Core.Scalar Core.Index Core.Expr Core.Swap Core.Canon Core.Equiv
-  Core.DeltaRule Core.Equiv2.
+  Core.DeltaRule Core.Equiv2 Models.RSPTCheck.
 
 (* A derived overlap expression accepted by the validator against the
    antisymmetrised delta product (order 0) resp. against the empty expression
@@ -23,3 +23,20 @@ Theorem C04_zero_expression :
   forall (S : Scalar) (T : tmodel S) tg r, eval S T tg r nil = k0 S.
 Proof. reflexivity. Qed.
 Print Assumptions C04_zero_expression.
+
+(* The explicitly constructed intermediate states (determinant space,
+   harness/isr_explicit.py: excitation operators on the normalised perturbed
+   ground state, Gram-Schmidt, S^(-1/2)) that C03 and C05 compare the derived
+   matrices with are certified orthonormal inside Coq on every run: [ortho_ok]
+   accepts a list of states (one coefficient polynomial per determinant) only
+   if, for every value x of the perturbation parameter,
+   <I(x)|J(x)> = delta_IJ + x^(N+1) * rem  (mod p). *)
+Theorem C04_explicit_states_orthonormal_certificate :
+  forall p N states, ortho_ok p N states = true ->
+  forall i j A B x,
+    nth_error states i = Some A -> nth_error states j = Some B ->
+    exists rem,
+      ((dotv (values A x) (values B x)) mod p
+       = (delta i j + x ^ Z.of_nat (S N) * rem) mod p)%Z.
+Proof. exact ortho_ok_sound. Qed.
+Print Assumptions C04_explicit_states_orthonormal_certificate.
